@@ -20,6 +20,18 @@ PROPS = {
     'C05': ({'N', 'T', 'M', 'P', 'A', 'Q'}, (500, 600)),
     'C08': ({'N', 'T', 'M', 'A'}, (800, 900)),
     'C19': ({'N', 'T', 'F', 'A', 'Q'}, (1900, 2000)),
+    # the reference interpretation is the engine model: these properties own no oracle clause of their own
+    # (C06 shares 202, the second revival of a task by a catch) and are decided by trace equality on their line kinds
+    'C04': ({'N', 'T', 'A', 'Q'}, (400, 500)),
+    'C06': ({'N', 'T', 'M', 'P', 'A'}, (202, 203)),
+    'C07': ({'N', 'M', 'P', 'D', 'A'}, (700, 800)),
+    'C16': ({'N', 'T', 'M', 'A'}, (1600, 1700)),
+}
+NONTRIVIAL = {
+    'C04': (lambda ls: any(l.startswith('N ') and ' branch ' in l for l in ls), "a branch task was created"),
+    'C06': (lambda ls: any(l.startswith('T ') and l.split(' ')[3] == 'error' for l in ls), "some task entered the error state"),
+    'C07': (lambda ls: any('acts.transform.set' in l for l in ls if l.startswith('N ')) or any(l.startswith('A ok') for l in ls), "a transform act ran or a client action was accepted"),
+    'C16': (lambda ls: any(l.startswith('N ') and l.split(' ')[2] == 'dyn' for l in ls), "a generated / hook / pushed act was created"),
 }
 CLAUSE_TEXT = {
     101: "quiescent, process not ended, and nothing a client could answer (no open interrupt act, no pending timeout)",
@@ -113,6 +125,23 @@ def needs_cycle(wf):
     return bad
 
 
+def tmo_nodes(wf):
+    """ids of the nodes that declare a timeout rule"""
+    out = set()
+
+    def visit(o):
+        if isinstance(o, dict):
+            if o.get('timeout') and 'id' in o:
+                out.add(o['id'])
+            for v in o.values():
+                visit(v)
+        elif isinstance(o, list):
+            for v in o:
+                visit(v)
+    visit(wf)
+    return out
+
+
 def classify(case, clause, tid, mlines):
     """class string of a violation, computed on the model's trace of the same case (it agrees line by
     line with the implementation's when the correspondence holds)"""
@@ -144,27 +173,41 @@ def classify(case, clause, tid, mlines):
             return "802:same_state_twice"
         return "802:after_transition"
     if clause == 101:
-        if needs_cycle(case['wf']):
-            return "101:branch_dependency_cycle"
-        for l in tr.lines:
+        last = {}            # task -> (index of its last transition, state, site)
+        for k, l in enumerate(tr.lines):
             p = l.split(' ')
             if p[0] == 'N':
                 st[int(p[1])] = 'none'
             elif p[0] == 'T':
                 st[int(p[1])] = p[3]
+                last[int(p[1])] = (k, p[3], p[5] if len(p) > 5 else '@?')
             elif p[0] == 'P' and p[1] in TERM:
                 ended = True
             elif p[0] == 'Q' and not ended and not any(s == 'interrupted' for s in st.values()):
+                if any(st[x] not in TERM and tr.ti[x]['nid'] in tmo_nodes(case['wf']) for x in st):
+                    continue
                 opens = [x for x in st if st[x] not in TERM]
                 leaves = [x for x in opens if not any(tr.parent(y) == x for y in opens)]
                 if not leaves:
                     return "101:no_open_task"
                 x = leaves[0]
+                if tr.ti[x]['kind'] == 'branch' and st[x] == 'pending' and needs_cycle(case['wf']):
+                    return "101:branch_dependency_cycle"
                 kids = [y for y in st if tr.parent(y) == x]
-                if any(k in tr.hooks for k in kids):
-                    return "101:hook_act_child_never_wakes_parent"
-                ks = ','.join(sorted(set(st[k] for k in kids)))
-                return f"101:{tr.ti[x]['kind']}:{st[x]}:kids={ks}"
+
+                def below(a, b):
+                    while a is not None:
+                        a = tr.parent(a)
+                        if a == b:
+                            return True
+                    return False
+                px = tr.parent(x)
+                if any(below(h, x) or (px is not None and tr.parent(h) == px) for h in tr.hooks if h in st):
+                    return "101:hook_act"
+                if kids:
+                    y = max(kids, key=lambda k: last.get(k, (-1,))[0])
+                    return f"101:{tr.ti[x]['kind']}:{st[x]}:child_{st[y]}{last.get(y, (0, '', '@?'))[2]}"
+                return f"101:{tr.ti[x]['kind']}:{st[x]}:self{last.get(x, (0, '', '@?'))[2]}"
         return "101:?"
     return str(clause)
 
@@ -198,8 +241,10 @@ def run(prop, tier, seed):
     # a disagreement without an oracle violation: keep the first case as replay material
     if prop == 'C19':
         nontrivial = len([cid for cid in cases if any(l.startswith('F ') for l in i.get(cid, []))])
+    if prop in NONTRIVIAL:
+        nontrivial = len([cid for cid in cases if NONTRIVIAL[prop][0](i.get(cid, []))])
     cov = {'evaluations': res['ncases'], 'distinct_nontrivial': nontrivial,
-           'rule': "generated workflows (steps, branches if/else/needs, acts irq/msg/set/block/parallel/sequence, catches, timeouts, setup hooks, conditions over inputs) with model-driven client histories (all ten action kinds, ticks; ~70% aimed at open acts, the rest at terminal / non-act / unknown tasks); distinct by construction from one PRNG; non-trivial = at least one accepted client action (C19: at least one rule firing)",
+           'rule': "generated workflows (steps, branches if/else/needs, acts irq/msg/set/block/parallel/sequence, catches, timeouts, setup hooks, conditions over inputs) with model-driven client histories (all ten action kinds, ticks; ~70% aimed at open acts, the rest at terminal / non-act / unknown tasks); distinct by construction from one PRNG; non-trivial = " + (NONTRIVIAL[prop][1] if prop in NONTRIVIAL else "at least one accepted client action (C19: at least one rule firing)"),
            'traces_validated_against_impl': agree, 'disagreements': len(dis),
            'input_distribution': res['distribution'], 'corpus_cases': res['ncorpus'],
            'samples': [json.loads(open(res['cases']).readline())]}
